@@ -102,15 +102,26 @@ var props = map[string]propCfg{
 	},
 	"C14": {
 		level: "exploration",
-		rule: "sio: a crew of 1-5 recorder machines, 1-4 submitted messages with unique ids, routing targets (absent, id, '*', unknown, service names, lists with unknown, repeated, non-string and service members) and nested emission instructions (hop budget 2); the order in which machines are presented a message comes from the map-order seam; counting oracle over the recorders' logs and Result.Emitted; distinct = distinct (crew size, processed/batch counts) shapes",
-		parts: []part{{name: "sio", engine: "sio", race: false, quick: 2500, thorough: 150000}},
-		comps: []string{"real: sio.Crew ProcessMsg/RunMachines/toMachines, core.Walk, ecmascript interpreter (instrumented copies)", "reference: router model (documented routing rule, breadth-first queue) in the harness", "simulated: order in which machines are presented a message (map-order seam)"},
+		rule: "mcrew: 1-4 recorder machines, 1-2 client tasks x 1-3 messages (targets absent, id, unknown id, timers, http, ws; nested emission instructions, timers that deliver messages later), counting oracle over the recorders' logs at quiescence and over the Emitted channel; sio: a crew of 1-5 recorder machines, 1-4 submitted messages with unique ids, routing targets (absent, id, '*', unknown, service names, lists with unknown, repeated, non-string and service members) and nested emission instructions (hop budget 2); the order in which machines are presented a message comes from the map-order seam; counting oracle over the recorders' logs and Result.Emitted; distinct = distinct (crew size, processed/batch counts) shapes",
+		parts: []part{{name: "sio", engine: "sio", race: false, quick: 2500, thorough: 150000}, {name: "mcrew", engine: "mcrew", race: true, quick: 300, thorough: 15000}},
+		comps: []string{"real: sio.Crew ProcessMsg/RunMachines/toMachines, core.Walk, ecmascript interpreter (instrumented copies)", "real: cmd/mcrew Service.Process/Route/toTimers/Timers on a real bbolt store (tmpfs) with recorder machines loaded from a spec file; client tasks and the service's asynchronous re-processing goroutines under the serial scheduler with the simulated clock", "reference: router models (documented routing rules) in the harnesses", "simulated: order in which machines are presented a message (map-order seam), goroutine scheduling, clock", "not simulated: real HTTP egress, WebSocket peers (messages to 'http'/'ws' are only checked to reach no machine)"},
 	},
 	"C15": {
 		level: "fault_enumeration",
 		rule: "each run: a history of 2-8 operations over <=3 machine ids - captain create (two spec versions, with or without state), replace state, replace spec, delete, re-create, interleaved with routed/unrouted messages that move the recorder machines; after every ProcessMsg the fold of Result.Changed is compared with the live crew (node, bindings, spec source modulo compilation, deleted machines absent); then for every message boundary a twin crew is booted from the JSON of the shadow store and must produce equal states and emission batches for the rest of the history; distinct = distinct operation-kind sequences",
 		parts: []part{{name: "", engine: "sio", race: false, quick: 1500, thorough: 100000}},
 		comps: []string{"real: sio.Crew (ProcessMsg, captain machine, SetMachine/DeleteMachine, GetChanged), core.Walk, ecmascript interpreter", "reference: shadow store folded exactly as sio/stdio.go folds Result.Changed; boot path as sio/siostd/main.go", "injected: crash/restart at every message boundary (JSON round trip of the store), order of machines (map-order seam)"},
+	},
+	"C16": {
+		level: "fault_enumeration",
+		rule: "faults: one client, 3-9 operations (add, remove, process, read crew; NaN-producing machines, empty and 40 kB ids) over <=3 ids, at every operation position the store may start or stop failing (bbolt closed / reopened), after every operation memory is compared with memory-before (failed writes) and with Storage.GetCrew (healthy store); concurrent: 2-4 client tasks x 1-4 operations under the serial scheduler, porcupine against a sequential crew model with the final memory as one more read, plus memory == store at quiescence; both: clients plus a task closing/reopening the store, only the quiescent invariant after the store is back; distinct = distinct (operation, fault) sequences / schedule hashes",
+		parts: []part{
+			{name: "faults", engine: "mcrew", race: false, quick: 1500, thorough: 80000},
+			{name: "concurrent", engine: "mcrew", race: true, quick: 300, thorough: 15000},
+			{name: "both", engine: "mcrew", race: true, quick: 300, thorough: 15000},
+		},
+		comps: []string{"real: cmd/mcrew Service (AddMachine, RemMachine, Process, crew.Copy), Storage on a real bbolt file (tmpfs), core.Walk, ecmascript interpreter - instrumented copies", "injected: store closed/reopened at operation positions and (part both) at scheduler steps, encode faults (NaN binding), key faults (empty / oversize id); bbolt's own crash consistency is not faulted", "reference: sequential crew model (map id -> state, recipients by the routing rule) for porcupine"},
+		assum: []string{"Walk as reported by Process (From/To of each machine) is taken as the sequential transition of the crew model"},
 	},
 	"C17": {
 		level: "exploration",
